@@ -314,6 +314,12 @@ class C16(Prop):
             dump['interval'] = world._r(rng.loguniform(g, 0.002, 0.05), 3)
         if dump:
             spec['setup']['Dump'] = dump
+        # requested axial planes (also a list inside the parsed input that
+        # set-up reads), on / near region and power-cell bounds
+        if rng.chance(g, 0.6):
+            from .sweep import place_ticks
+            planes, _ = place_ticks(S('ticks'), spec, ('region', 'power'))
+            spec['axial_plane'] = planes
         ntp = len(spec['power'])
         ops = []
         for _ in range(int(g.integers(3, 7))):
